@@ -43,6 +43,7 @@ def shapes(tier):
         out.append({"what": "default_wiring", "poly": npoly})
     for gl in (False, True):
         out.append({"what": "sample_logp", "generate_linear": gl})
+    out.append({"what": "sample_logp", "generate_linear": True, "offsets": True})
     return out
 
 
@@ -250,6 +251,18 @@ def _default_wiring(shape):
     return out
 
 
+def _sample_prior(shape):
+    import astropy.units as u
+    import pymc as pm
+    import thejoker as tj
+    import thejoker.units as xu
+    if shape.get("offsets"):
+        with pm.Model():
+            dv = xu.with_unit(pm.Normal("dv0_1", 0.0, 4.0), u.km / u.s)
+            return tj.JokerPrior.default(P_min=3 * u.day, P_max=300 * u.day, sigma_K0=20 * u.km / u.s, sigma_v=50 * u.km / u.s, v0_offsets=[dv])
+    return tj.JokerPrior.default(P_min=3 * u.day, P_max=300 * u.day, sigma_K0=20 * u.km / u.s, sigma_v=50 * u.km / u.s)
+
+
 # ---- F: the graphs prior.sample evaluates for ln_prior -----------------------------------------
 
 def _sample_logp(shape):
@@ -257,7 +270,7 @@ def _sample_logp(shape):
     import thejoker as tj
     from pytensor.graph.basic import Variable
     gl = shape["generate_linear"]
-    prior = tj.JokerPrior.default(P_min=3 * u.day, P_max=300 * u.day, sigma_K0=20 * u.km / u.s, sigma_v=50 * u.km / u.s)
+    prior = _sample_prior(shape)
     captured = []
     orig = Variable.eval
 
@@ -288,7 +301,9 @@ def _sample_logp(shape):
         redrawn = [r[0] for r in ev.fresh_rvs]
         out.append(("sample.logp_is_function_of_row[%d]" % n_terms, z3.BoolVal(not redrawn), "JokerPrior.sample.logp_graph",
                     (lambda m, redrawn=redrawn: {"generate_linear": gl, "redrawn_inputs": redrawn}), []))
-    out.append(("sample.logp_terms_present", z3.BoolVal(n_terms >= (3 if gl else 2)), "JokerPrior.sample", d, []))
+    # one log-density term per drawn parameter that has a density: P, e (+ K, v0, offsets with generate_linear)
+    want_terms = 2 + (2 if gl else 0) + (1 if (gl and shape.get("offsets")) else 0)
+    out.append(("sample.logp_terms_present", z3.BoolVal(n_terms >= want_terms), "JokerPrior.sample.terms", (lambda m: {"generate_linear": gl, "terms": n_terms, "expected": want_terms}), []))
     ok_cols = "ln_prior" in s.tbl.colnames and len(s) == 2
     out.append(("sample.ln_prior_column", z3.BoolVal(bool(ok_cols)), "JokerPrior.sample", d, []))
     return out
@@ -341,7 +356,7 @@ def replay(cand):
                     bad.append("sigma_K(P=%g d, e=%g) = %r, declared rule %r" % (Pv, evv, got, want))
         elif what == "sample_logp":
             gl = shape["generate_linear"]
-            prior = tj.JokerPrior.default(P_min=3 * u.day, P_max=300 * u.day, sigma_K0=20 * u.km / u.s, sigma_v=50 * u.km / u.s)
+            prior = _sample_prior(shape)
             a = prior.sample(size=6, generate_linear=gl, return_logprobs=True, rng=np.random.default_rng(3))
             b = prior.sample(size=6, generate_linear=gl, return_logprobs=True, rng=np.random.default_rng(3))
             if not np.array_equal(np.asarray(a["ln_prior"]), np.asarray(b["ln_prior"])):
@@ -351,6 +366,8 @@ def replay(cand):
             if gl:
                 sig = np.minimum(20.0 * (P / 365.25) ** (-1 / 3) / np.sqrt(1 - e ** 2), 500.0)
                 want = want + st.norm(0, sig).logpdf(a["K"].to_value(u.km / u.s)) + st.norm(0, 50.0).logpdf(a["v0"].to_value(u.km / u.s))
+                if shape.get("offsets"):
+                    want = want + st.norm(0, 4.0).logpdf(a["dv0_1"].to_value(u.km / u.s))
             dlt = np.asarray(a["ln_prior"]) - want
             if np.ptp(dlt) > 1e-5:
                 bad.append("ln_prior - log joint density is not constant across rows (spread %.3g)" % np.ptp(dlt))
